@@ -81,7 +81,20 @@ def strOrd : Ord' StrOps.Bytes :=
 /-- FNV-1a: `var hash = -3750763034362895579` (= 0xcbf29ce484222325), `prime = 1099511628211`;
     per byte `hash = bit_xor(hash, byte); hash = wrapping_mul(hash, prime)` -/
 def strHash : Hash' StrOps.Bytes :=
-  fun s => s.foldl (fun h b => (h ^^^ b.toUInt64) * 1099511628211) 0xcbf29ce484222325
+  fun s => s.foldl (fun h b => (h ^^^ UInt64.ofNat b.toNat) * 1099511628211) 0xcbf29ce484222325
+
+/-- the loop as the prelude writes it: `for i in string_count_bytes(s) { hash = bit_xor(hash,
+    string_nth_byte(s, i)); hash = wrapping_mul(hash, prime) }` — index `i`, `fuel` rounds left; an
+    out-of-range `string_nth_byte` would be the runtime error (`none`) -/
+def strHashLoop (s : StrOps.Bytes) : Nat → Nat → UInt64 → Option UInt64
+  | 0, _, h => some h
+  | fuel + 1, i, h =>
+    match StrOps.nthByte s i with
+    | .val b => strHashLoop s fuel (i + 1) ((h ^^^ bitsOfInt b) * 1099511628211)
+    | .outOfBounds => none
+
+def strHashIndexed (s : StrOps.Bytes) : Option UInt64 :=
+  strHashLoop s (StrOps.countBytes s).toNat 0 0xcbf29ce484222325
 
 /-! ### `fn hash_combine(seed, value) = wrapping_add(wrapping_mul(seed, 31), Hash.hash(value))` -/
 
